@@ -60,7 +60,7 @@ Fixpoint ofind_loop (fuel : nat) (t : otable) (bc idx probe maxProbe key h : Z) 
 Definition ofind (t : otable) (L key h : Z) : outcome (option Z) :=
   let bc := wrapU 64 (Z.shiftl 1 L) in
   let start := Gen_Base.GetStartBucketIndex h bc in
-  if obucket_find (t start) key h =? 0 then ofind_loop (S (Z.to_nat bc)) t bc start 1 (Gen_Base.GetMaxProbe L) key h
+  if obucket_find (t start) key h =? 0 then ofind_loop (S (Z.to_nat (Gen_Base.GetMaxProbe L))) t bc start 1 (Gen_Base.GetMaxProbe L) key h
   else Ok (Some start).
 
 Section OneReloc.
